@@ -51,7 +51,7 @@ func addFixnums(a, b slip.Fixnum) slip.Object {
 		return sum
 	}
 	var z big.Int
-	return (*slip.Bignum)(z.Add(big.NewInt(int64(a)), big.NewInt(int64(b))))
+	return slip.IntegerFromBig(z.Add(big.NewInt(int64(a)), big.NewInt(int64(b))))
 }
 
 // subFixnums subtracts b from a. A difference that does not fit in a fixnum
@@ -62,7 +62,7 @@ func subFixnums(a, b slip.Fixnum) slip.Object {
 		return dif
 	}
 	var z big.Int
-	return (*slip.Bignum)(z.Sub(big.NewInt(int64(a)), big.NewInt(int64(b))))
+	return slip.IntegerFromBig(z.Sub(big.NewInt(int64(a)), big.NewInt(int64(b))))
 }
 
 // mulFixnums multiplies two fixnums. A product that does not fit in a fixnum
@@ -76,5 +76,5 @@ func mulFixnums(a, b slip.Fixnum) slip.Object {
 		return product
 	}
 	var z big.Int
-	return (*slip.Bignum)(z.Mul(big.NewInt(int64(a)), big.NewInt(int64(b))))
+	return slip.IntegerFromBig(z.Mul(big.NewInt(int64(a)), big.NewInt(int64(b))))
 }
